@@ -79,6 +79,8 @@ pub fn generate(g: &mut Gen) {
         let ja = a.iter().map(qt).collect::<Vec<_>>().join(" ");
         let jb = b.iter().map(qt).collect::<Vec<_>>().join(" ");
         g.push(format!("t.addnested {} {} {} {}", k, ja, k, jb), Tol::Exact, "nested/add", true);
+        g.push(format!("t.subnested {} {} {} {}", k, ja, k, jb), Tol::Exact, "nested/sub", true);
+        g.push(format!("t.mulnested {} {} {} {}", k, ja, k, jb), Tol::Exact, "nested/mul", true);
         g.push(format!("t.divnested {} {} {}", k, ja, hx(3.0)), Tol::Exact, "nested/divscalar", true);
         // different lengths are refused
         let jb1 = b.iter().skip(1).map(qt).collect::<Vec<_>>().join(" ");
